@@ -287,8 +287,6 @@ theorem gates_of_addsT {ok : Tag → Bool} (hq : NoGates ok) {w w' : World} (h :
 
 theorem noGates_tQuiet : NoGates tQuiet := ⟨rfl, rfl, rfl, rfl⟩
 
-theorem emit_env (a : Action) (w : World) : (emit a w).env = w.env := rfl
-
 theorem gates_emit (a : Action) (w : World) : gates (emit a w) = (πGate a).toList ++ gates w := proj_emit _ _ _
 
 /-- The install-path questions and calls the script leads to, in order: the plan; if there is one,
